@@ -12,7 +12,9 @@ raw case (what Hypothesis generates, index based so that every reference is vali
 Concrete member nodes
     {"k": "func", "name", "sig", "doc"}              def name(sig): <docstring "doc N">
     {"k": "attr", "name", "val"}                     name = val
-    {"k": "cls",  "name", "bases": [names], "doc", "body": [func|attr nodes]}
+    {"k": "cls",  "name", "bases": [names], "doc", "body": [func|attr|nested cls nodes]}
+    {"k": "star", "name": "*<src with />", "src"}     from src import *     (expanded by Pkg into virtual "imp" entities)
+Module: {"pkg", "doc", "all": None | [names] (may be EMPTY: declared, exports nothing), "all_form", "all_src", "body"}
     {"k": "imp",  "name", "src", "tgt", "rel"?}      from src import tgt as name      (target path = src.tgt; rel: spelled relatively)
 """
 
@@ -25,6 +27,7 @@ MOD_NAMES = ("sub", "mod", "util", "api", "_impl", "_core")
 DEF_NAMES = ("f", "g", "h", "v", "w", "_pf", "_pv", "__dv__")
 CLS_NAMES = ("K", "L", "M", "_B", "_Q")
 MEM_NAMES = ("m", "n", "x", "y", "_pm", "__cp", "__call__")
+NEST_NAMES = ("N", "_H")
 ALIAS_NAMES = ("a1", "a2", "_a3", "s1", "s2")
 FUNC_SIGS = ("", "a", "a, b=1", "a, *args", "a, **kw", "*, k=1", "a, /, b=2", "a, b=1, *, k=2")
 METH_SIGS = ("self", "self, a", "self, a=1", "self, *args, **kw", "self, a, *, k=1")
@@ -64,7 +67,7 @@ def build(raw: dict) -> dict:
         seen: list[str] = []
         for rmem in raw_of[p]["body"]:
             nm = _raw_name(rmem)
-            if nm is not None and nm not in seen:
+            if rmem["k"] != "star" and nm is not None and nm not in seen:
                 seen.append(nm)
         named[p] = seen
 
@@ -110,14 +113,20 @@ def build(raw: dict) -> dict:
             m.pop("_modcycle", None)
             m.pop("_cycle", None)
 
-    # ---- __all__
+    # ---- __all__ (own names first; names provided by wildcard imports are added below)
     for p in order:
         spec = raw_of[p].get("all")
         mod = mods[p]
         exp = mod.pop("_exp")
         if spec is None:
             continue
-        names_ = [m["name"] for m in mod["body"]]
+        if "empty" in spec:
+            # declared but empty: the module exports nothing, every member is private
+            mod["all"] = []
+            mod["all_form"] = spec["empty"]
+            mod["_all_src"] = spec.get("src", 0)
+            continue
+        names_ = [m["name"] for m in mod["body"] if m["k"] != "star"]
         chosen = [n for i, n in enumerate(names_) if (spec["bits"] >> (i % 16)) & 1 or n in exp]
         subs = spec.get("subs", "public")
         if subs != "none":
@@ -125,11 +134,24 @@ def build(raw: dict) -> dict:
         if not chosen and names_:
             chosen = [names_[0]]
         mod["all"] = chosen or None
+        if mod["all"]:
+            mod["all_form"] = spec.get("form", "list")
+            mod["_stars"] = spec.get("stars", True)
+    # an empty __all__ assembled from another module's empty __all__
+    for p in order:
+        mod = mods[p]
+        pick = mod.pop("_all_src", None)
+        if mod.get("all_form") == "from":
+            srcs = [q for q in order if q != p and mods[q]["all"] == [] and mods[q].get("all_form") != "from"]
+            if srcs:
+                mod["all_src"] = srcs[pick % len(srcs)]
+            else:
+                mod["all_form"] = "list"
 
     model = {"order": order, "mods": mods}
 
     # ---- phase 2: bases (acyclic by construction: a base is a class strictly earlier in (module order, position))
-    pkg = Pkg(model)
+    pkg = Pkg(_without_stars(model))
     rank: dict[str, tuple[int, int]] = {}
     for mi, p in enumerate(order):
         for bi, m in enumerate(mods[p]["body"]):
@@ -165,7 +187,7 @@ def build(raw: dict) -> dict:
                     have = [o["name"] for o in mods[p]["body"] if o["k"] == "imp" and o["src"] == fmod and o["tgt"] == fname]
                     if have:
                         name = have[0]
-                    elif all(o["name"] != fname for o in mods[p]["body"]):
+                    elif all(o["name"] != fname for o in mods[p]["body"]) and f"{p}.{fname}" not in pkg.ent:
                         mods[p]["body"].insert(0, {"k": "imp", "name": fname, "src": fmod, "tgt": fname})
                         name = fname
                 if name is None:
@@ -175,11 +197,45 @@ def build(raw: dict) -> dict:
                 if name in m["bases"]:
                     continue
                 m["bases"].append(name)
-                pkg = Pkg(model)
+                pkg = Pkg(_without_stars(model))
                 if pkg.mro(me) is None:  # inconsistent C3: not a class CPython could create
                     m["bases"].pop()
-                    pkg = Pkg(model)
+                    pkg = Pkg(_without_stars(model))
+
+    # ---- wildcard imports: only in modules that declare __all__ (there the publicness of the provided names is
+    # documented: listed or not), only from modules later in the order (acyclic), never colliding with a bound name
+    for p in reversed(order):
+        mod = mods[p]
+        stars = [m for m in mod["body"] if m["k"] == "star"]
+        if not stars:
+            mod.pop("_stars", None)
+            continue
+        pkg = Pkg({"order": order, "mods": {q: {**mods[q], "body": [m for m in mods[q]["body"] if q != p or m["k"] != "star"]} for q in order}})
+        bound = {m["name"] for m in mod["body"]} | {c.rsplit(".", 1)[1] for c in children[p]}
+        srcs_seen: set[str] = set()
+        for st_ in stars:
+            src = st_["src"]
+            ok = mod["all"] is not None and src != p and order.index(src) > order.index(p) and src not in srcs_seen
+            names = pkg.star_names(src) if ok else []
+            if not ok or not names or any(n in bound for n in names):
+                mod["body"].remove(st_)
+                continue
+            srcs_seen.add(src)
+            bound.update(names)
+            if mod["all"] and mod.get("_stars", True):
+                mod["all"] += [n for n in names if n not in mod["all"]]
+        mod.pop("_stars", None)
+
+    model = {"order": order, "mods": mods}
     return model
+
+
+def _without_stars(model: dict) -> dict:
+    """View of the model without wildcard imports (bodies are copies, member nodes are shared)."""
+    return {
+        "order": model["order"],
+        "mods": {q: {**m, "body": [x for x in m["body"] if x["k"] != "star"]} for q, m in model["mods"].items()},
+    }
 
 
 def _raw_name(rmem: dict) -> str | None:
@@ -193,6 +249,8 @@ def _raw_name(rmem: dict) -> str | None:
         if n is None:
             return None
         return ALIAS_NAMES[n % len(ALIAS_NAMES)]
+    if k == "star":
+        return None
     raise ValueError(k)
 
 
@@ -202,10 +260,17 @@ def _concrete(rmem: dict, p: str, order: list[str], named: dict, children: dict)
         return {"k": "func", "name": _raw_name(rmem), "sig": FUNC_SIGS[rmem.get("sig", 0) % len(FUNC_SIGS)], "doc": rmem.get("doc", 0)}
     if k == "attr":
         return {"k": "attr", "name": _raw_name(rmem), "val": rmem.get("val", 0)}
-    if k == "cls":
+    def class_body(raw_body: list) -> list:
         body = []
         seen = set()
-        for rm in rmem.get("body", []):
+        for rm in raw_body:
+            if rm["k"] == "ncls":
+                nm = NEST_NAMES[rm["name"] % len(NEST_NAMES)]
+                if nm not in seen:
+                    seen.add(nm)
+                    inner = class_body([x for x in rm.get("body", []) if x["k"] != "ncls"])
+                    body.append({"k": "cls", "name": nm, "bases": [], "doc": 0, "body": inner})
+                continue
             nm = MEM_NAMES[rm["name"] % len(MEM_NAMES)]
             if nm in seen:
                 continue
@@ -214,7 +279,17 @@ def _concrete(rmem: dict, p: str, order: list[str], named: dict, children: dict)
                 body.append({"k": "func", "name": nm, "sig": METH_SIGS[rm.get("sig", 0) % len(METH_SIGS)], "doc": rm.get("doc", 0)})
             else:
                 body.append({"k": "attr", "name": nm, "val": rm.get("val", 0)})
+        return body
+
+    if k == "cls":
+        body = class_body(rmem.get("body", []))
         return {"k": "cls", "name": _raw_name(rmem), "bases": [], "_rawbases": list(rmem.get("bases", [])), "doc": rmem.get("doc", 0), "body": body}
+    if k == "star":
+        others = [q for q in order if q != p]
+        if not others:
+            return None
+        src = others[rmem.get("mod", 0) % len(others)]
+        return {"k": "star", "name": "*" + src.replace(".", "/"), "src": src}
     # imports
     node = _concrete_import(rmem, p, order, named)
     if node is not None and rmem.get("rel") and node["src"] != EXT_MOD:
@@ -276,6 +351,8 @@ def _render_member(m: dict, indent: str = "", where: tuple[str, bool] | None = N
         return out
     if k == "attr":
         return [f"{indent}{m['name']} = {m['val']!r}"]
+    if k == "star":
+        return [f"{indent}from {m['src']} import *"]
     if k == "imp":
         as_ = "" if m["name"] == m["tgt"] else f" as {m['name']}"
         src = m["src"]
@@ -295,6 +372,21 @@ def _render_member(m: dict, indent: str = "", where: tuple[str, bool] | None = N
     raise ValueError(k)
 
 
+def _render_all(mod: dict) -> list[str]:
+    names = [repr(n) for n in mod["all"]]
+    form = mod.get("all_form", "list")
+    if form == "tuple":
+        return ["__all__ = (" + ", ".join(names) + ("," if len(names) == 1 else "") + ")"]
+    if form == "aug":
+        # __all__ built in two steps with +=
+        k = len(names) // 2
+        return ["__all__ = [" + ", ".join(names[:k]) + "]", "__all__ += [" + ", ".join(names[k:]) + "]"]
+    if form == "from" and not names and mod.get("all_src"):
+        # assembled from another module's (empty) __all__
+        return [f"from {mod['all_src']} import __all__ as _zz_all", "__all__ = [*_zz_all]"]
+    return ["__all__ = [" + ", ".join(names) + "]"]
+
+
 def render(model: dict) -> dict[str, str]:
     files: dict[str, str] = {}
     for p in model["order"]:
@@ -305,7 +397,7 @@ def render(model: dict) -> dict[str, str]:
         for m in mod["body"]:
             lines += _render_member(m, where=(p, mod["pkg"]))
         if mod["all"] is not None:
-            lines.append("__all__ = [" + ", ".join(repr(n) for n in mod["all"]) + "]")
+            lines += _render_all(mod)
         rel = p.replace(".", "/")
         files[f"{rel}/__init__.py" if mod["pkg"] else f"{rel}.py"] = "\n".join(lines) + "\n"
     return files
@@ -347,21 +439,55 @@ class Pkg:
             self.kids.setdefault(p, [])
             if parent is not None:
                 self.kids.setdefault(parent, [])
+        def index_class(ep: str, node: dict) -> None:
+            self.kids[ep] = []
+            for sub in node["body"]:
+                sp = f"{ep}.{sub['name']}"
+                self.ent[sp] = (sub["k"], sub, ep)
+                self.kids[ep].append(sp)
+                if sub["k"] == "cls":
+                    index_class(sp, sub)
+
         for p in model["order"]:
             mod = model["mods"][p]
             for m in mod["body"]:
+                if m["k"] == "star":
+                    continue
                 ep = f"{p}.{m['name']}"
                 self.ent[ep] = (m["k"], m, p)
                 self.kids[p].append(ep)
                 if m["k"] == "cls":
-                    self.kids[ep] = []
-                    for sub in m["body"]:
-                        sp = f"{ep}.{sub['name']}"
-                        self.ent[sp] = (sub["k"], sub, ep)
-                        self.kids[ep].append(sp)
+                    index_class(ep, m)
+        # wildcard imports become virtual import entities; sources come later in the order, so they are expanded first
+        self.star_sources: set[str] = set()
+        for p in reversed(model["order"]):
+            for m in model["mods"][p]["body"]:
+                if m["k"] != "star":
+                    continue
+                self.star_sources.add(m["src"])
+                for n in self.star_names(m["src"]):
+                    ep = f"{p}.{n}"
+                    if ep in self.ent:
+                        continue
+                    self.ent[ep] = ("imp", {"k": "imp", "name": n, "src": m["src"], "tgt": n, "virtual": True}, p)
+                    self.kids[p].append(ep)
         for p in model["order"]:
             if "." in p:
                 self.kids[p.rsplit(".", 1)[0]].append(p)
+
+    def star_names(self, src: str) -> list[str]:
+        """Names `from src import *` provides (is_wildcard_exposed): the members listed in src's __all__ when it declares
+        one, else every member (own, imported or itself provided by a wildcard; not sub-modules) without a leading underscore."""
+        if src not in self.ent or self.ent[src][0] != "module":
+            return []
+        allv = self.ent[src][1]["all"]
+        if allv is not None:
+            out = []
+            for n in allv:
+                if n not in out and f"{src}.{n}" in self.ent:
+                    out.append(n)
+            return out
+        return [self.ent[k][1]["name"] for k in self.kids[src] if self.ent[k][0] != "module" and not self.ent[k][1]["name"].startswith("_")]
 
     # ---- basic
     def kind(self, path: str) -> str | None:
@@ -498,7 +624,15 @@ class Pkg:
                     continue
                 seen.add(k)
                 rel.add(k)
-                rel.update(self.kids[k])
+                # members with a private name (and everything below them) are invisible in the class and in every
+                # subclass under both readings of the table
+                sub = [x for x in self.kids[k]]
+                while sub:
+                    x = sub.pop()
+                    if is_private_name(self.ent[x][1]["name"]):
+                        continue
+                    rel.add(x)
+                    sub.extend(self.kids.get(x, ()))
                 ch: list = []
                 bases = self.base_entities(k, chain=ch) or []
                 rel.update(ch)
@@ -685,6 +819,10 @@ class Editor:
             cands = [c for c in cands if self.loc_class(c) == "dead"]
             if not cands:
                 return None
+            if edit.get("hidden"):
+                # prefer objects hidden by an empty __all__ (private whatever their name looks like)
+                sub = [c for c in cands if self.opkg.ent[self.opkg.module_of(c)][1]["all"] == [] and not is_private_name(c.rsplit(".", 1)[1])]
+                cands = sub or cands
         elif where != "any":
             # requested location class first, then the rarer classes before the common ones
             for w in (where, "inherit", "reexport", "direct", "gray"):
@@ -714,7 +852,8 @@ class Editor:
             self.records.append(rec)
 
     def _entities(self, kinds: tuple[str, ...]) -> list[str]:
-        return [p for p, (k, _, _) in self.opkg.ent.items() if k in kinds and p != ROOT]
+        """Editable entities of the original model (names provided by a wildcard import have no statement of their own)."""
+        return [p for p, (k, n, _) in self.opkg.ent.items() if k in kinds and p != ROOT and not n.get("virtual")]
 
     def _op_identity(self, edit):
         return {"ent": ROOT, "loc": "direct"}
@@ -779,10 +918,14 @@ class Editor:
         if ent not in pkg.ent:
             return
         kind, node, parent = pkg.ent[ent]
+        if node.get("virtual"):
+            return  # provided by a wildcard import: disappears with its source
         if kind == "module":
             for p in [p for p in new["order"] if _under(p, ent)]:
                 new["order"].remove(p)
                 del new["mods"][p]
+            for mod in new["mods"].values():
+                mod["body"][:] = [m for m in mod["body"] if not (m["k"] == "star" and _under(m["src"], ent))]
             name = ent.rsplit(".", 1)[1]
             pall = new["mods"][parent]["all"]
             if pall and name in pall and len(pall) > 1:
@@ -885,7 +1028,7 @@ class Editor:
         pos = edit.get("arg", 0) % (len(mod["body"]) + 1)
         mod["body"].insert(pos, node)
         exported = False
-        if mod["all"] is not None and edit.get("flag", True):
+        if mod["all"] and edit.get("flag", True):  # an empty __all__ stays empty
             mod["all"].append(node["name"])
             exported = True
         self.pinned.add(m)
@@ -923,7 +1066,7 @@ class Editor:
         path = f"{m}.{name}"
         self.new["order"].append(path)
         self.new["mods"][path] = {"pkg": False, "doc": 1, "all": None, "body": [{"k": "func", "name": "zf", "sig": "", "doc": 0}]}
-        if self.new["mods"][m]["all"] is not None and edit.get("flag", True):
+        if self.new["mods"][m]["all"] and edit.get("flag", True):
             self.new["mods"][m]["all"].append(name)
         self.pinned.add(m)
         return {"ent": path, "loc": "added"}
@@ -971,8 +1114,10 @@ class Editor:
             if self.opkg.ent[parent][0] != "module" or not self._alive(e):
                 continue
             allv = self.opkg.ent[parent][1]["all"]
-            if allv is None or self.opkg.ent[e][1]["name"] in allv:
+            if not allv or self.opkg.ent[e][1]["name"] in allv:
                 continue
+            if parent in self.opkg.star_sources:
+                continue  # the name would also flow into the wildcard importers and could collide there
             cands.append(e)
         e = self._pick(cands, edit)
         if e is None:
